@@ -512,21 +512,28 @@ def parseFlushes (s : String) : List FlushResp := s.toList.map fun c => if c = '
 send, failures only where the device script has faults); `none` = satisfied -/
 def serialC14 (wires : List (List UInt8)) (r : List IoResp) (fl : String) (log : List UInt8) (nfl : Nat)
     (res : List String) : Option String :=
-  -- is `log` a concatenation of one piece per send: a prefix of that send's wire, the whole wire when it returned ok?
-  let rec pieces (log : List UInt8) (ws : List (List UInt8)) (rs : List String) : Bool :=
+  -- `res`: per send `<result>[@<cumulative log length>]`; the piece a send put on the device is the log between the
+  -- previous boundary and its own
+  let parsed : List (String × Option Nat) := res.map fun x =>
+    match x.splitOn "@" with
+    | [a, n] => (a, n.toNat?)
+    | _ => (x, none)
+  let results := parsed.map (·.1)
+  let rec pieces (log : List UInt8) (at_ : Nat) (ws : List (List UInt8)) (rs : List (String × Option Nat)) : Bool :=
     match ws, rs with
     | [], [] => log.isEmpty
-    | w :: wt, r :: rt =>
-      if r == "ok" then w.isPrefixOf log && pieces (log.drop w.length) wt rt
-      else (List.range (w.length + 1)).any fun k => (w.take k).isPrefixOf log && pieces (log.drop k) wt rt
+    | w :: wt, (r, bound) :: rt =>
+      let k := match bound with | some b => b - at_ | none => (if r == "ok" then w.length else log.length)
+      let piece := log.take k
+      piece.isPrefixOf w && (r != "ok" || piece.length == w.length) && pieces (log.drop k) (at_ + k) wt rt
     | _, _ => false
-  let oks := (res.filter (· == "ok")).length
+  let oks := (results.filter (· == "ok")).length
   let faultFree := r.all (fun x => match x with | .ioError => false | .wrote n => n != 0 | .interrupted => true) && fl.all (· == 'o')
-  if res.contains "panic" then some "a send panicked"
-  else if !pieces log wires res then
+  if results.contains "panic" then some "a send panicked"
+  else if !pieces log 0 wires parsed then
     some "the bytes on the device are not, per send, a prefix of its wire image (the whole image when it returned Ok)"
   else if nfl < oks then some "a send returned Ok without flushing"
-  else if faultFree && res.any (· != "ok") then some "a send failed although the device never failed"
+  else if faultFree && results.any (· != "ok") then some "a send failed although the device never failed"
   else none
 
 /-- `tx <link> <packet[+packet…]> <responses> [flush answers]`: sends made one after the other on one instance -/
@@ -549,7 +556,14 @@ def scenTx (toks : List String) (obs : String) : Verdict :=
       let r ← parseIoResps rs
       let uss ← pks.mapM bodiesOf
       let (w, n, res) := serialSendMany uss r (parseFlushes fl)
-      pure (showSerialLog w ++ "/f" ++ toString n ++ " " ++ showSendResults res)
+      -- per send: result and the cumulative length of the device log when it returned
+      let rec cum (uss : List (List (List UInt8))) (rs : List IoResp) (acc : Nat) : List Nat :=
+        match uss with
+        | [] => []
+        | us :: t => let (w1, _, rs') := serialSendFrames us rs; (acc + w1.length) :: cum t rs' (acc + w1.length)
+      let lens := cum uss r 0
+      pure (showSerialLog w ++ "/f" ++ toString n ++ " " ++
+        String.intercalate "," ((res.zip lens).map fun (x, l) => showSendRes x ++ "@" ++ toString l))
     | _ => none
   match ans with
   | none => .bad "parse"
